@@ -152,3 +152,11 @@ Section Observers.
     intros Hend. rewrite <- Hk. rewrite (at_end_stream m Htab t Ht lx' ys' HI' Hend). reflexivity.
   Qed.
 End Observers.
+
+(** A sub-lex mark set while a look-ahead token is buffered moves nothing but the marks: the cursor, the scanner, the
+    filter and the look-ahead stay, so the filtered tokens between the cursor and the look-ahead are NOT passed (a later,
+    wider filter still delivers them - what an advance-only lexer does). Without a look-ahead the mark looks ahead itself and,
+    standing at a parse start, skips them eagerly (the recorded C05 finding starts there). *)
+Lemma sublex_with_lookahead lx b : c_buf lx = Some b ->
+  c_start_sublex lx = Ok (mklex (c_text lx) (c_met lx) (c_sc lx) (c_filter lx) (c_rec lx) (Some b) (c_cur lx) (c_cur lx) (c_cur lx)).
+Proof. intros H. unfold c_start_sublex, c_buffer_next. cbn [c_buf]. rewrite H. reflexivity. Qed.
